@@ -907,3 +907,180 @@ Proof.
       destruct (IK x Hx) as [I0 _]. destruct (in_keys_ex _ _ (I0 Hn)) as [c0 [H0 K0]].
       apply (IH x c0 y Hx Hn H0 Hy K0 (eq_sym K)). eapply lvl_in_keys. eauto.
 Qed.
+
+(* ------------------------------------------------------------------ *)
+(* MOVED_HERE / MOVED_TO come in pairs (no hypothesis on the inputs)   *)
+(* ------------------------------------------------------------------ *)
+Definition rawQ (y : rt) : Prop :=
+  has_dc y MOVED_HERE = false /\ has_dc y MOVED_TO = false /\ (Nat.odd (rid y) = true -> gone y = false).
+
+Lemma copy_child_all (P : rt -> Prop) :
+  (forall id i ch m, (m = [] \/ m = m_added) -> P (T (id1 id) (res_info i m) ch)) ->
+  forall n m, (m = [] \/ m = m_added) -> Forall P (pre (copy_child m n)).
+Proof.
+  intros HP. induction n as [id i ch IH] using rt_ind'. intros m Hm. cbn [copy_child pre]. constructor.
+  - now apply HP.
+  - apply Forall_forall. intros y Hy. apply in_flat_map in Hy. destruct Hy as [c' [Hc' Hy]].
+    apply in_map_iff in Hc'. destruct Hc' as [c [<- Hc]]. rewrite Forall_forall in IH.
+    specialize (IH c Hc [] (or_introl eq_refl)). rewrite Forall_forall in IH. auto.
+Qed.
+
+Lemma add_top_all (P : rt -> Prop) :
+  (forall id i ch m, (m = [] \/ m = m_added) -> P (T (id1 id) (res_info i m) ch)) ->
+  forall c1, Forall P (pre (add_top c1)).
+Proof.
+  intros HP c1. unfold add_top. cbn [pre]. constructor; [apply HP; now right|].
+  apply Forall_forall. intros y Hy. apply in_flat_map in Hy. destruct Hy as [c' [Hc' Hy]].
+  unfold copy_children in Hc'. apply in_map_iff in Hc'. destruct Hc' as [c [<- Hc]].
+  pose proof (copy_child_all P HP c m_added (or_intror eq_refl)) as H. rewrite Forall_forall in H. auto.
+Qed.
+
+Lemma Forall_flat_map {X Y} (P : Y -> Prop) (F : X -> list Y) l :
+  (forall x, In x l -> Forall P (F x)) -> Forall P (flat_map F l).
+Proof.
+  intros H. apply Forall_forall. intros y Hy. apply in_flat_map in Hy. destruct Hy as [x [Hx Hy]].
+  specialize (H x Hx). rewrite Forall_forall in H. auto.
+Qed.
+
+(* a property of single nodes that holds for every node compare creates *)
+Section RawAll.
+  Variable P : rt -> Prop.
+  Hypothesis P_copy : forall id i ch m, (m = [] \/ m = m_added) -> P (T (id1 id) (res_info i m) ch).
+  Hypothesis P_both : forall id i ch ordered i0 i1 b, P (T (id0 id) (res_info i (order_meta ordered i0 i1 ++ root_meta b)) ch).
+  Hypothesis P_removed : forall id i, P (T (id0 id) (res_info i m_removed) []).
+
+  Lemma compare_all_aux ordered ch0 :
+    Forall (fun c => forall ch1 i0, Forall P (pre (fst (cmp ordered ch1 i0 c)))) ch0 ->
+    forall ch1, Forall P (pre_f (fst (compare ordered ch0 ch1))).
+  Proof.
+    intros H ch1. rewrite compare_split, flat_map_app. apply Forall_app. split.
+    - apply Forall_flat_map. intros x Hx. apply r0_in in Hx. destruct Hx as [i0 [c0 [Hi ->]]].
+      rewrite Forall_forall in H. apply H. eapply nth_error_In; eauto.
+    - apply Forall_flat_map. intros x Hx. apply added_part_in in Hx. destruct Hx as [c1 [_ [_ ->]]].
+      now apply add_top_all.
+  Qed.
+
+  Lemma cmp_all ordered : forall c0 ch1 i0, Forall P (pre (fst (cmp ordered ch1 i0 c0))).
+  Proof.
+    induction c0 as [n0 inf0 ch0 IH] using rt_ind'. intros ch1 i0. rewrite cmp_unfold.
+    destruct (find_child ch1 (key (T n0 inf0 ch0))) as [[i1 c1]|]; cbn [fst rch rid rinfo pre].
+    - constructor; [apply P_both|]. now apply compare_all_aux.
+    - constructor; [apply P_removed|constructor].
+  Qed.
+
+  Lemma compare_all ordered ch0 ch1 : Forall P (pre_f (fst (compare ordered ch0 ch1))).
+  Proof. apply compare_all_aux. apply Forall_forall. intros c _. apply cmp_all. Qed.
+End RawAll.
+
+Lemma compare_rawQ ordered ch0 ch1 : Forall rawQ (pre_f (fst (compare ordered ch0 ch1))).
+Proof.
+  apply compare_all.
+  - intros id i ch m [-> | ->]; repeat split.
+  - intros id i ch o i0 i1 b. unfold rawQ, has_dc, mark, rmeta. cbn [rinfo rid res_info i_meta].
+    rewrite get_dc_raw. unfold raw_mark. rewrite odd_id0.
+    destruct (negb (Nat.eqb i0 i1) && o); repeat split; discriminate.
+  - intros id i. unfold rawQ. cbn [rid]. rewrite odd_id0. repeat split; discriminate.
+Qed.
+
+Definition moved_inv (f : forest) : Prop :=
+  (forall x, In x (pre_f f) -> Nat.odd (rid x) = true -> gone x = false) /\
+  (forall x, In x (pre_f f) -> has_dc x MOVED_HERE = true ->
+     Nat.odd (rid x) = true /\ exists y, In y (pre_f f) /\ has_dc y MOVED_TO = true /\ rdid y = rdid x) /\
+  (forall y, In y (pre_f f) -> has_dc y MOVED_TO = true ->
+     exists x, In x (pre_f f) /\ has_dc x MOVED_HERE = true /\ rdid x = rdid y).
+
+Lemma has_dc_info x c : has_dc x c = info_has_dc (rinfo x) c.
+Proof. reflexivity. Qed.
+
+Lemma has_dc_map_info g x c : has_dc (map_info g x) c = info_has_dc (g (rid x) (rinfo x)) c.
+Proof. now rewrite has_dc_info, map_info_rinfo. Qed.
+
+Lemma moved_inv_step f a : moved_inv f -> moved_inv (reclass_step f a).
+Proof.
+  intros Inv0. pose proof Inv0 as [G1 [MH MT]]. unfold reclass_step.
+  destruct (Nat.odd a) eqn:Ha; [|exact Inv0].
+  destruct (find_node a f) as [n|] eqn:Fn; [|exact Inv0].
+  match goal with |- context [if ?b then _ else _] => destruct b eqn:Ex end; [|exact Inv0].
+  clear Inv0.
+  apply find_some in Fn. destruct Fn as [Hn Rn]. apply Nat.eqb_eq in Rn.
+  apply existsb_exists in Ex. destruct Ex as [x0 [Hx0 Ex]].
+  apply andb_true_iff in Ex. destruct Ex as [Ex R0]. apply andb_true_iff in Ex. destruct Ex as [Na D0].
+  apply negb_true_iff, Nat.eqb_neq in Na. apply did_eqb_eq in D0.
+  set (d := rdid n) in *. set (g := reclass_fn a d).
+  assert (Hg : step_ok g) by now apply reclass_fn_ok.
+  assert (Pre : forall z', In z' (pre_f (map (map_info g) f)) <-> exists z, In z (pre_f f) /\ z' = map_info g z).
+  { intros z'. rewrite map_info_pre_f, in_map_iff. split; intros [z [A B]]; exists z; auto. }
+  assert (Did : forall z, rdid (map_info g z) = rdid z) by (intros z; apply (step_node g z Hg)).
+  (* the three behaviours of g on a node z *)
+  assert (Cases : forall z,
+     (rid z = a /\ rdid z = d /\ rinfo (map_info g z) = set_dc MOVED_HERE (rinfo z)) \/
+     (~ (rid z = a /\ rdid z = d) /\ rdid z = d /\ has_dc z REMOVED = true /\ rinfo (map_info g z) = set_dc MOVED_TO (rinfo z)) \/
+     (~ (rid z = a /\ rdid z = d) /\ ~ (rdid z = d /\ has_dc z REMOVED = true) /\ rinfo (map_info g z) = rinfo z)).
+  { intros z. rewrite map_info_rinfo. unfold g, reclass_fn. fold (rdid z).
+    destruct (Nat.eqb (rid z) a && did_eqb (rdid z) d) eqn:E1.
+    - left. apply andb_true_iff in E1. destruct E1 as [A B]. apply Nat.eqb_eq in A. apply did_eqb_eq in B. auto.
+    - right. assert (N1 : ~ (rid z = a /\ rdid z = d)).
+      { intros [A B]. rewrite A, B, Nat.eqb_refl, did_eqb_refl in E1. discriminate. }
+      destruct (did_eqb (rdid z) d && info_has_dc (rinfo z) REMOVED) eqn:E2.
+      + left. apply andb_true_iff in E2. destruct E2 as [B C]. apply did_eqb_eq in B. auto.
+      + right. refine (conj N1 (conj _ eq_refl)). intros [B C]. rewrite B, did_eqb_refl in E2.
+        rewrite has_dc_info in C. rewrite C in E2. discriminate. }
+  assert (n_here : has_dc (map_info g n) MOVED_HERE = true).
+  { destruct (Cases n) as [[_ [_ E]]|[[N _]|[N _]]]; [|exfalso; apply N; auto..].
+    rewrite has_dc_info, E. now apply info_has_dc_set. }
+  assert (x0_to : has_dc (map_info g x0) MOVED_TO = true).
+  { destruct (Cases x0) as [[A _]|[[_ [_ [_ E]]]|[_ [N _]]]]; [contradiction| |exfalso; apply N; auto].
+    rewrite has_dc_info, E. now apply info_has_dc_set. }
+  refine (conj _ (conj _ _)).
+  - intros z' Hz' Ho. apply Pre in Hz'. destruct Hz' as [z [Hz ->]].
+    destruct (step_node g z Hg) as [Rz [_ [_ [_ [_ [_ Ok]]]]]]. rewrite Rz in Ho. apply Ok. split; auto.
+  - intros z' Hz' Hh. apply Pre in Hz'. destruct Hz' as [z [Hz ->]]. rewrite map_info_rid, Did.
+    destruct (Cases z) as [[A [B E]]|[[_ [_ [_ E]]]|[N1 [N2 E]]]].
+    + split; [now rewrite A|]. exists (map_info g x0). refine (conj _ (conj x0_to _)).
+      * apply Pre. eauto.
+      * rewrite Did. congruence.
+    + rewrite has_dc_info, E, info_has_dc_set_b in Hh. discriminate.
+    + rewrite has_dc_info, E in Hh. destruct (MH z Hz Hh) as [Oz [y [Hy [Ty Dy]]]]. split; [exact Oz|].
+      exists (map_info g y). refine (conj _ (conj _ _)); [apply Pre; eauto| |now rewrite Did].
+      destruct (Cases y) as [[A _]|[[_ [_ [Ry _]]]|[_ [_ Ey]]]].
+      * exfalso. assert (gone y = false) by (apply G1; auto; now rewrite A).
+        unfold gone, gone_i in H. rewrite has_dc_info in Ty. rewrite Ty, orb_true_r in H. discriminate.
+      * pose proof (info_has_dc_unique _ _ _ Ry Ty). discriminate.
+      * now rewrite has_dc_info, Ey.
+  - intros z' Hz' Ht. apply Pre in Hz'. destruct Hz' as [z [Hz ->]]. rewrite Did.
+    destruct (Cases z) as [[A [B E]]|[[_ [B [_ E]]]|[N1 [N2 E]]]].
+    + rewrite has_dc_info, E, info_has_dc_set_b in Ht. discriminate.
+    + exists (map_info g n). refine (conj _ (conj n_here _)); [apply Pre; eauto|]. rewrite Did. now rewrite B.
+    + rewrite has_dc_info, E in Ht. destruct (MT z Hz Ht) as [x [Hx [Hh Dx]]].
+      exists (map_info g x). refine (conj _ (conj _ _)); [apply Pre; eauto| |now rewrite Did].
+      destruct (Cases x) as [[_ [_ Ex]]|[[_ [_ [Rx _]]]|[_ [_ Ex]]]].
+      * rewrite has_dc_info, Ex. now apply info_has_dc_set.
+      * pose proof (info_has_dc_unique _ _ _ Rx Hh). discriminate.
+      * now rewrite has_dc_info, Ex.
+Qed.
+
+Lemma moved_inv_raw ordered ch0 ch1 : moved_inv (fst (compare ordered ch0 ch1)).
+Proof.
+  pose proof (compare_rawQ ordered ch0 ch1) as H. rewrite Forall_forall in H.
+  refine (conj _ (conj _ _)).
+  - intros x Hx. apply (H x Hx).
+  - intros x Hx Hh. destruct (H x Hx) as [E _]. congruence.
+  - intros x Hx Hh. destruct (H x Hx) as [_ [E _]]. congruence.
+Qed.
+
+(* for EVERY order and ANY two input forests *)
+Theorem moved_pairs order ordered t0 t1 :
+  let f := snd (diff_with order ordered false t0 t1) in
+  (forall x, In x (pre_f f) -> has_dc x MOVED_HERE = true ->
+     exists y, In y (pre_f f) /\ has_dc y MOVED_TO = true /\ rdid y = rdid x /\ Nat.odd (rid x) = true /\ Nat.even (rid y) = true) /\
+  (forall y, In y (pre_f f) -> has_dc y MOVED_TO = true ->
+     exists x, In x (pre_f f) /\ has_dc x MOVED_HERE = true /\ rdid x = rdid y).
+Proof.
+  cbn. assert (I : moved_inv (reclass order (fst (compare ordered t0 t1)))).
+  { unfold reclass. generalize (moved_inv_raw ordered t0 t1). generalize (fst (compare ordered t0 t1)).
+    induction order as [|a order IH]; intros f Hf; [exact Hf|]. cbn [fold_left]. apply IH. now apply moved_inv_step. }
+  destruct I as [G1 [MH MT]]. split; [|exact MT].
+  intros x Hx Hh. destruct (MH x Hx Hh) as [Ox [y [Hy [Ty Dy]]]]. exists y. repeat split; auto.
+  rewrite <- Nat.negb_odd. destruct (Nat.odd (rid y)) eqn:Oy; [|reflexivity]. exfalso.
+  pose proof (G1 y Hy Oy) as G. unfold gone, gone_i in G. rewrite has_dc_info in Ty. rewrite Ty, orb_true_r in G. discriminate.
+Qed.
